@@ -132,7 +132,18 @@ pub async fn run_one(seed: u64, recover_mode: bool) -> Vec<Value> {
                 if up.len() > 2 {
                     if let Some(a) = up.choose(&mut rng).cloned() {
                         rig.w.net.inner.down.lock().insert(a.clone());
-                        rig.op(Op::Failover { addr: a }).await;
+                        if rng.gen_bool(0.5) {
+                            // through the coordinators' own loops: PING detection (detector.rs), failure report, quorum, failure
+                            // handler (recover.rs) - Coord.tla DPing / DReport / FReplace
+                            rig.w.detect_round("coord1").await;
+                            rig.w.detect_round("coord2").await;
+                            rig.w.failover_round(who).await;
+                            let listed = rig.w.broker.svc.get_failed_proxies().await.unwrap_or_default();
+                            let still_member = members(&rig).await.contains(&a);
+                            rig.after_external_change("FailoverByCoordinator", json!({"addr": a, "failed_list": listed, "still_member": still_member})).await;
+                        } else {
+                            rig.op(Op::Failover { addr: a }).await;
+                        }
                     }
                 }
             }
@@ -243,6 +254,13 @@ pub async fn run_one(seed: u64, recover_mode: bool) -> Vec<Value> {
     let mut rounds = 0;
     for _ in 0..60 {
         rig.settle().await;
+        // all four loops of a live coordinator: detection, failure handling, migration state, metadata
+        let before = members(&rig).await;
+        rig.w.detect_round("coord1").await;
+        rig.w.failover_round("coord1").await;
+        if members(&rig).await != before {
+            rig.after_external_change("FailoverByCoordinator", json!({"phase": "convergence"})).await;
+        }
         rig.w.migration_round("coord1").await;
         rig.w.sync_round("coord1").await;
         rounds += 1;
